@@ -24,7 +24,8 @@ EXPLANATION = (
     "R13f: Fock rules (off-diagonal blocks zeroed; the index that did not survive the delta is "
     "substituted, exponent kept; conflicting substitutions refused, targets set). R13g: "
     "sub-expressions with equal ERI/denominator keep every term once (factor_eri_parts, "
-    "factor_denom, reduce_expr bookkeeping).")
+    "factor_denom, reduce_expr bookkeeping). R13h: bookkeeping of the fraction cancellation (running "
+    "prefactor, bracket subtraction, exponent lowering, leftover numerator added on every way out of the loop).")
 ASSUMPTIONS = [
     "cancel_orb_energy_frac, the choice of permutations in permute_num and find_compatible_denom "
     "are algorithms whose soundness is a runtime statement; only their bookkeeping is checked",
@@ -212,11 +213,22 @@ def r13d(ctx):
               key="Expr.expand_intermediates")
     ob = ctx.model.fn(EC + "Obj.expand_intermediates")
     pw = [a for a in walk_fn(ob) if isinstance(a, ast.Assign) and U(a.targets[0]) == "expanded" and "Pow(" in U(a.value)]
-    ctx.check(rule, ob, len(pw) == 1 and U(pw[0].value) == "Pow(expanded, self.exponent)", "expanded definition raised to the object's exponent",
-              "exponent of an expanded intermediate lost", key="Obj.expand_intermediates exponent")
+    ex = [a for a in walk_fn(ob) if isinstance(a, ast.Assign) and U(a.targets[0]) == "exponent"]
+    ok = len(pw) == 1 and U(pw[0].value) in ("Pow(expanded, self.exponent)", "Pow(expanded, exponent)") and (
+        U(pw[0].value).endswith("self.exponent)") or (len(ex) == 1 and U(ex[0].value) == "self.exponent"))
+    ctx.check(rule, ob, ok, "expanded definition raised to the object's exponent", "exponent of an expanded intermediate lost",
+              key="Obj.expand_intermediates exponent")
+    # a definition with summation indices must be expanded once per factor (fresh indices each time)
+    guarded = bool(pw) and any((not pol) and "exponent > 1" in t for t, pol in conditions(pw[0]))
+    rep = [c for c in calls_in(ob) if call_name(c) == "Mul" and c.args and isinstance(c.args[0], ast.Starred)
+           and isinstance(c.args[0].value, (ast.ListComp, ast.GeneratorExp)) and call_name(c.args[0].value.elt) == "expand_itmd"
+           and "range(" in U(c.args[0].value.generators[0].iter) and "exponent" in U(c.args[0].value.generators[0].iter)]
+    ctx.check(rule, ob, guarded and len(rep) == 1, "exponent n > 1: product of n separate expansions (fresh contracted indices each)",
+              "an intermediate with exponent n > 1 is expanded once and raised to the power n: all factors share the contracted indices "
+              "of the definition (each summation index occurs 2n times)", key="Obj.expand_intermediates fresh")
     call = [c for c in calls_in(ob) if call_name(c) == "expand_itmd"]
-    ok = len(call) == 1 and {k.arg: U(k.value) for k in call[0].keywords} == {"indices": "self.idx", "return_sympy": "True",
-                                                                            "fully_expand": "fully_expand"}
+    ok = len(call) >= 1 and all({k.arg: U(k.value) for k in c.keywords} == {"indices": "self.idx", "return_sympy": "True",
+                                                                          "fully_expand": "fully_expand"} for c in call)
     ctx.check(rule, ob, ok, "definition expanded on the object's indices", "expand_itmd arguments changed", key="Obj.expand_intermediates call")
 
 
@@ -287,11 +299,14 @@ def r13f(ctx):
     for a in walk_fn(fn):
         if isinstance(a, ast.Assign) and U(a.targets[0]) == "bl_diag":
             cs = conditions(a)
-            k = "other" if ("self.name == tensor_names.fock", False) in cs else \
-                "diag" if ("space[0] == space[1]", True) in cs else "offdiag" if ("space[0] == space[1]", False) in cs else "?"
+            keep = any(pol and t.replace(" ", "") in ("space[0]==space[1]or'g'inspace", "'g'inspaceorspace[0]==space[1]") for t, pol in cs)
+            drop = ("space[0] == space[1]", False) in cs and ("'g' in space", False) in cs
+            k = "other" if ("self.name == tensor_names.fock", False) in cs else "diag" if keep else "offdiag" if drop else "?"
             vals[k] = U(a.value)
     ctx.check(rule, fn, vals == {"other": "self.sympy", "diag": "self.sympy", "offdiag": "0"},
-              "exactly fock objects with two different spaces are zeroed", f"block-diagonalisation table {vals}", key="block diag")
+              "exactly fock objects with two different specific spaces (ov/vo) are zeroed; general indices keep the element",
+              f"block-diagonalisation table {vals}: an element is zero only if both indices have specific and different spaces "
+              "(f_ip with a general index contains the diagonal block f_ij)", key="block diag")
     fn = ctx.model.fn(EC + "Obj.diagonalize_fock")
     sub = {}
     for a in walk_fn(fn, nested=False):
@@ -327,6 +342,12 @@ def r13f(ctx):
     mul = [n for n in walk_fn(t) if isinstance(n, ast.AugAssign) and U(n.target) == "diag"]
     ctx.check(rule, t, len(mul) == 1 and isinstance(mul[0].op, ast.Mult) and U(mul[0].value) == "diag_obj", "every object multiplied back",
               "product rebuild changed", key="diag product")
+    ch = [n for n in walk_fn(t) if isinstance(n, ast.While) and U(n.test) == "new in sub"]
+    ok = len(ch) == 1 and U(ch[0].body[0]) == "new = sub[new]" and isinstance(ch[0]._parent, ast.For) and U(ch[0]._parent.iter) == "sub.items()" \
+        and any(U(x) == "sub[old] = new" for x in ch[0]._parent.body)
+    ctx.check(rule, t, ok, "chains of substitutions (f_ij f_jk) are resolved transitively before the simultaneous substitution",
+              "the substitutions collected from several Fock elements are applied simultaneously without resolving chains: for "
+              "f_ij f_jk the index k is replaced by j instead of i", key="diag chains")
     upd = [c for c in calls_in(t) if call_name(c) == "update" and U(c.func.value) == "sub"]
     ctx.check(rule, t, len(upd) == 1 and U(upd[0].args[0]) == "sub_obj", "substitutions collected", "substitution collection changed",
               key="diag collect")
@@ -373,7 +394,74 @@ def r13g(ctx):
               key="collect")
 
 
+def r13h(ctx):
+    """bookkeeping of EriOrbenergy.cancel_orb_energy_frac.cancel"""
+    rule = "R13h"
+    fn = ctx.model.fn(EO + "cancel_orb_energy_frac.cancel")
+    loops = [n for n in fn.body if isinstance(n, ast.For)]
+    if len(loops) != 1:
+        raise AnalysisError("cancel: bracket loop not found")
+    lp = loops[0]
+    a = {}
+    for x in walk_fn(fn):
+        if isinstance(x, ast.AugAssign):
+            a.setdefault(U(x.target), []).append((type(x.op).__name__, " ".join(U(x.value).split()), x))
+        elif isinstance(x, ast.Assign):
+            a.setdefault(U(x.targets[0]), []).append(("=", " ".join(U(x.value).split()), x))
+    # running prefactor
+    pm = [t for t in a.get("pref", []) if t[0] == "Mult"]
+    ok = len(pm) == 1 and pm[0][1] == "min_pref" and ("min_pref is S.One", False) in conditions(pm[0][2])
+    ctx.check(rule, fn, ok, "factor pulled out of the numerator is accumulated in the running prefactor",
+              "`pref *= min_pref` (under min_pref != 1) is missing: the factor removed from the numerator is lost for the later "
+              "brackets", key="pref accumulate")
+    nm = [t for t in a.get("num", []) if t[1] == "factor_and_remove_number(num, min_pref)"]
+    ctx.check(rule, fn, len(nm) == 1 and pm and nm[0][2]._parent is pm[0][2]._parent, "numerator divided by the same factor",
+              "numerator is not divided by the factor moved to the prefactor", key="num divide")
+    sub = [t for t in a.get("num", []) if t[0] == "Sub"]
+    ctx.check(rule, fn, len(sub) == 1 and sub[0][1] == "base", "cancelled bracket subtracted from the numerator", "numerator update changed",
+              key="num subtract")
+    adds = [t for t in a.get("cancelled_result", []) if t[0] == "Add"]
+    vals = sorted(t[1] for t in adds)
+    want_main = "pref * self.eri / multiply(new_denom)"
+    want_left = "pref * self.eri * num / multiply(denom)"
+    ctx.check(rule, fn, want_main in vals, "cancelled part: running pref * eri / (denominator without the bracket)",
+              f"contribution of a cancelled bracket is {vals}; it must use the running prefactor `pref` (not self.pref) and the "
+              "denominator without the cancelled bracket", key="cancelled part")
+    ctx.check(rule, fn, all(v in (want_main, want_left) for v in vals), "only the two documented contributions are added",
+              f"unexpected contribution {[v for v in vals if v not in (want_main, want_left)]}", key="contributions")
+    # the leftover numerator must be added on every way out of the loop
+    left = [t[2] for t in adds if t[1] == want_left]
+    in_break = [x for x in left if any(isinstance(s2, ast.Break) for s2 in getattr(x._parent._parent, "body", []))
+                or any(isinstance(s2, ast.Break) for s2 in getattr(x._parent, "body", []))]
+    after = [x for x in left if any(x is y for st in lp.orelse for y in ast.walk(st))] + \
+        [x for x in left if x.lineno > lp.end_lineno]
+    ctx.check(rule, lp, bool(in_break), "numerator reduced to a number: remainder added, loop left", "number remainder handling changed",
+              key="leftover number")
+    ctx.check(rule, lp, bool(after), "all brackets tried: the part of the numerator that is left is added over the full denominator",
+              "when the loop over the brackets ends without `break`, the leftover (non-constant) numerator over the full denominator is "
+              "never added: a part of the term is dropped", key="leftover after loop")
+    nd = {t[1] for t in a.get("new_denom", [])} | {t[1] for t in a.get("new_denom[bracket_i]", [])}
+    ctx.check(rule, fn, nd == {"denom[:bracket_i] + denom[bracket_i + 1:]", "denom[:]", "e.Expr(Pow(base, exponent - 1), **bracket.assumptions)"},
+              "bracket exponent lowered by one / bracket removed", f"new denominator built as {sorted(nd)}", key="new denom")
+    sk = [n for n in walk_fn(lp) if isinstance(n, ast.Continue)]
+    ctx.check(rule, lp, len(sk) == 1 and U(sk[0]._parent.test) == "len(relevant_prefs) != len(bracket_indices)",
+              "a bracket is cancelled only if all its orbital energies occur in the numerator", "bracket applicability test changed",
+              key="applicable")
+    r = common.returns_of(fn)
+    ctx.check(rule, fn, U(r[-1].value) == "self.expr if cancelled_result is None else cancelled_result", "nothing cancelled: term unchanged",
+              "return of cancel changed", key="return")
+    top = ctx.model.fn(EO + "cancel_orb_energy_frac")
+    c = [x for x in calls_in(top, nested=False) if call_name(x) == "cancel"]
+    ctx.check(rule, top, len(c) == 1 and [U(z) for z in c[0].args] == ["self.num", "denom", "self.pref"], "cancel(num, sorted brackets, pref)",
+              "cancel arguments changed", key="cancel args")
+    cs = [x for x in calls_in(top, nested=False) if call_name(x) == "canonicalize_sign"]
+    ctx.check(rule, top, len(cs) == 1 and cs[0].lineno < c[0].lineno if c else False, "signs canonicalised before cancelling",
+              "sign canonicalisation missing", key="sign first")
+
+
 def run(ctx):
+    if ctx.want("R13h"):
+        r13h(ctx)
     for r, f in (("R13a", r13a), ("R13b", r13b), ("R13c", r13c), ("R13d", r13d), ("R13e", r13e), ("R13f", r13f),
                  ("R13g", r13g)):
         if ctx.want(r):
